@@ -1,8 +1,11 @@
 package main
 
 import (
+	"math"
 	"strconv"
 )
+
+type geom2 struct{ x, y float64 }
 
 func scaleStr(s string, k int) string {
 	if s == "" {
@@ -290,6 +293,113 @@ func generateMore(suite string, seed uint64, i int, r *rng, id string, g gp) *Ca
 		edges, names := genGraph(r, g)
 		cfg := genCfg(r, cp{p1: []int{0, 1}, p2: []int{0, 1}, p4: []int{4}, bk: []int{-1}, p5: []int{0, 1, 2}, sizes: 1, mon: r.chance(1, 2)}, names)
 		return &Case{ID: id, Op: "layout", Cfg: cfg, Edges: edges, Arg: map[string]any{"montoggle": 1.0}}
+	case "c19", "c19-a", "c20":
+		// corridor of vertically stacked rectangles, consecutive ones share a boundary segment of positive length
+		k := r.rangeIn(1, 6)
+		half := func(lo, hi int) float64 { return float64(r.rangeIn(2*lo, 2*hi)) / 2 }
+		var rects []any
+		var L, R, T, B []float64
+		y := float64(r.intn(4))
+		l, rr := float64(r.intn(8)), 0.0
+		rr = l + float64(r.rangeIn(1, 8))
+		for j := 0; j < k; j++ {
+			h := float64(r.rangeIn(1, 6))
+			if j > 0 {
+				// new x range overlapping the previous one on a segment of positive length
+				for {
+					nl := float64(r.rangeIn(0, 14))
+					nr := nl + float64(r.rangeIn(1, 10))
+					switch r.intn(6) { // equal edges are a class of their own
+					case 0:
+						nl = l
+					case 1:
+						nr = rr
+					case 2:
+						nl, nr = l, rr
+					}
+					if nr > nl && math.Min(nr, rr) > math.Max(nl, l) {
+						l, rr = nl, nr
+						break
+					}
+				}
+			}
+			L, R, T, B = append(L, l), append(R, rr), append(T, y), append(B, y+h)
+			rects = append(rects, []any{fs(l), fs(y), fs(rr), fs(y + h)})
+			y += h
+		}
+		cls := []string{"A", "A", "B", "C"}[r.intn(4)]
+		if suite == "c19-a" || suite == "c20" {
+			cls = "A"
+		}
+		var p1, p2 geom2
+		last := k - 1
+		switch cls {
+		case "A": // the way phase 5 calls it: on the top edge of the first / bottom edge of the last rectangle, not on a corner
+			p1 = geom2{L[0] + (R[0]-L[0])*float64(r.rangeIn(1, 7))/8, T[0]}
+			p2 = geom2{L[last] + (R[last]-L[last])*float64(r.rangeIn(1, 7))/8, B[last]}
+		case "B": // strictly inside
+			p1 = geom2{L[0] + (R[0]-L[0])*float64(r.rangeIn(1, 7))/8, T[0] + (B[0]-T[0])*float64(r.rangeIn(1, 7))/8}
+			p2 = geom2{L[last] + (R[last]-L[last])*float64(r.rangeIn(1, 7))/8, T[last] + (B[last]-T[last])*float64(r.rangeIn(1, 7))/8}
+		default: // anywhere on the closed rectangles, including corners and the shared boundary
+			p1 = geom2{L[0] + (R[0]-L[0])*float64(r.rangeIn(0, 4))/4, T[0] + (B[0]-T[0])*float64(r.rangeIn(0, 4))/4}
+			p2 = geom2{L[last] + (R[last]-L[last])*float64(r.rangeIn(0, 4))/4, T[last] + (B[last]-T[last])*float64(r.rangeIn(0, 4))/4}
+		}
+		_ = half
+		op := "shortest"
+		if suite == "c20" {
+			op = "fitspline"
+		}
+		return &Case{ID: id, Op: op, Arg: map[string]any{"rects": rects, "p1": []any{fs(p1.x), fs(p1.y)}, "p2": []any{fs(p2.x), fs(p2.y)},
+			"cls": cls, "timeout_ms": 4000.0}}
+	case "solve": // C20 root finder: polynomials built from chosen roots (dyadic, so that the coefficients are exact)
+		kind := r.intn(7)
+		rt := func() float64 { return float64(r.rangeIn(-64, 64)) / 8 }
+		a := float64(r.rangeIn(1, 6))
+		if r.chance(1, 2) {
+			a = -a
+		}
+		var co []float64
+		var truth []any
+		switch kind {
+		case 0, 1: // three real roots (distinct or repeated by chance)
+			r1, r2, r3 := rt(), rt(), rt()
+			if kind == 1 {
+				r2 = r1 // repeated root
+			}
+			co = []float64{-a * r1 * r2 * r3, a * (r1*r2 + r1*r3 + r2*r3), -a * (r1 + r2 + r3), a}
+			truth = []any{fs(r1), fs(r2), fs(r3)}
+		case 2: // one real root and a complex pair u ± iv
+			r1, u, v := rt(), rt(), float64(r.rangeIn(1, 32))/8
+			m := u*u + v*v
+			co = []float64{-a * r1 * m, a * (m + 2*u*r1), -a * (r1 + 2*u), a}
+			truth = []any{fs(r1)}
+		case 3: // quadratic: leading coefficient exactly 0
+			r1, r2 := rt(), rt()
+			co = []float64{a * r1 * r2, -a * (r1 + r2), a, 0}
+			truth = []any{fs(r1), fs(r2)}
+		case 4: // quadratic without real roots
+			u, v := rt(), float64(r.rangeIn(1, 32))/8
+			co = []float64{a * (u*u + v*v), -2 * a * u, a, 0}
+			truth = []any{}
+		case 5: // linear
+			r1 := rt()
+			co = []float64{-a * r1, a, 0, 0}
+			truth = []any{fs(r1)}
+		case 6: // vanishing leading coefficient around the solver's epsilon: a tiny cubic term on top of a quadratic
+			r1, r2 := rt(), rt()
+			tiny := math.Ldexp(1, -r.rangeIn(18, 30)) // 2^-18 .. 2^-30  (epsilon3 = 1e-7 ~ 2^-23)
+			co = []float64{a * r1 * r2, -a * (r1 + r2), a, tiny}
+			truth = nil // decided from the polynomial itself by the driver (sign changes)
+		}
+		cs := make([]any, len(co))
+		for j, x := range co {
+			cs[j] = fs(x)
+		}
+		arg := map[string]any{"coeff": cs, "kind": float64(kind)}
+		if truth != nil {
+			arg["truth"] = truth
+		}
+		return &Case{ID: id, Op: "solve", Arg: arg}
 	case "history": // C18
 		nruns := r.rangeIn(1, 3)
 		var runs []Run
